@@ -50,7 +50,15 @@ def run(tier):
     _f_tags(chk, sites)
     _g_identity(chk)
     _h_reload(chk)
+    _i_hand_rolled(chk)
     return chk
+
+
+def _i_hand_rolled(chk):
+    """Hand-rolled caches (dicts looked up and filled in one function) anywhere in the package: key completeness (hv.memo)."""
+    from .. import memo
+    mods = [m.name for m in ri.all_modules() if "_tests" not in m.name and ".tests" not in m.name]
+    memo.check_modules(chk, "C20.i", mods, floor=6, what="hand-rolled memo sites in the package")
 
 
 # ------------------------------------------------------------------------------------------------ site enumeration
